@@ -190,7 +190,7 @@ Lemma wf_body_ren m body : ident_range m = true -> wf_body body = true -> wf_bod
 Proof.
   unfold wf_body. intros Hm H. apply andb_true_iff in H as [H HD]. apply andb_true_iff in H as [HF HO].
   assert (HF' : Forall (fun t => wf_tok t = true) body) by (apply Forall_forall; exact (proj1 (forallb_forall _ _) HF)).
-  rewrite depth_run_ren, HD, (ops_safe_ren _ _ Hm HF' HO), andb_true_r.
+  rewrite depth_run_ren, HD, (ops_safe_ren _ _ Hm HF' HO), !andb_true_r.
   apply forallb_forall. intros t Ht. apply in_map_iff in Ht as (t0 & <- & Ht0).
   apply wf_tok_ren; [exact Hm|]. exact (proj1 (forallb_forall _ _) HF t0 Ht0).
 Qed.
@@ -208,4 +208,117 @@ Theorem relex_renamed m body cmt :
   lex (untok (map (ren m) (line body cmt))) = Ok (map (ren m) (line body cmt)).
 Proof.
   intros HB HC Hm. rewrite map_ren_line. apply relex_line; [|exact HC]. now apply wf_body_ren.
+Qed.
+
+(* ---- the shape of what [lex] returns; indentation bookkeeping is invisible to untokenize ---- *)
+Definition body_kind (k : tkind) : Prop := content_kind k \/ k = COMMENT.
+
+Lemma next_token_kind s t rest : next_token s = Ok (t, rest) -> content_kind (fst t).
+Proof.
+  unfold next_token, content_kind. destruct s as [|c r]; [discriminate|].
+  destruct (is_blank c || Ascii.eqb c "#"); [discriminate|].
+  destruct (is_ident_start c).
+  { unfold tok_ident. destruct (span is_ident_char (String c r)) as [n rest'].
+    destruct rest' as [|q r'].
+    - intros H. injection H as <- _. simpl. auto.
+    - destruct (is_quote q); [|intros H; injection H as <- _; simpl; auto].
+      destruct (prefix_kind n) as [[|]|]; [discriminate| |intros H; injection H as <- _; simpl; auto].
+      intros H. apply tok_of_ok in H as (a & -> & _). simpl. auto. }
+  destruct (is_digit c).
+  { unfold tok_number. intros H. apply tok_of_ok in H as (a & -> & _). simpl. auto. }
+  destruct (Ascii.eqb c ".").
+  { unfold tok_dot. destruct r as [|d r2]; [intros H; injection H as <- _; simpl; auto|].
+    destruct (is_digit d); [intros H; apply tok_of_ok in H as (a & -> & _); simpl; auto|].
+    destruct (Ascii.eqb d "."); [|intros H; injection H as <- _; simpl; auto].
+    destruct r2 as [|d2 r3]; [intros H; injection H as <- _; simpl; auto|].
+    destruct (Ascii.eqb d2 "."); intros H; injection H as <- _; simpl; auto. }
+  destruct (is_quote c); [intros H; apply tok_of_ok in H as (a & -> & _); simpl; auto|].
+  destruct (Ascii.eqb c "\"); [discriminate|]. destruct (unsupported c); [discriminate|].
+  destruct (negb (printable c)); [discriminate|].
+  unfold tok_op. destruct (scan_op c r). intros H. injection H as <- _. simpl. auto.
+Qed.
+
+Lemma lex_body_kinds : forall fuel d s ts, lex_body fuel d s = Ok ts -> Forall (fun t => body_kind (fst t)) ts.
+Proof.
+  induction fuel as [|f IH]; intros d s ts H; [discriminate|].
+  cbn [lex_body] in H. destruct (skip_blank s) as [|c r] eqn:E.
+  - unfold at_eol in H. destruct (Nat.eqb d 0); [|discriminate]. injection H as <-. constructor.
+  - destruct (Ascii.eqb c "#").
+    + destruct (all_chars _ _); [|discriminate]. unfold at_eol in H.
+      destruct (Nat.eqb d 0); [|discriminate]. injection H as <-. constructor; [right; reflexivity|constructor].
+    + destruct (next_token (String c r)) as [[t rest]|e] eqn:En; [|discriminate].
+      destruct (depth_step d t) as [d'|]; [|discriminate].
+      destruct (lex_body f d' rest) as [l|e] eqn:El; [|discriminate]. simpl in H. injection H as <-.
+      constructor; [left; eapply next_token_kind; eauto|eapply IH; eauto].
+Qed.
+
+Inductive lex_shape (ts : list token) : Prop :=
+| shape_empty : ts = [(ENDMARKER, "")] -> lex_shape ts
+| shape_blank : ts = [(NL, ""); (ENDMARKER, "")] -> lex_shape ts
+| shape_comment c : ts = [(COMMENT, c); (NL, ""); (ENDMARKER, "")] -> lex_shape ts
+| shape_line l : Forall (fun t => body_kind (fst t)) l ->
+    ts = (l ++ [(NEWLINE, ""); (ENDMARKER, "")])%list -> lex_shape ts
+| shape_indented ws l : Forall (fun t => body_kind (fst t)) l ->
+    ts = ((INDENT, ws) :: l ++ [(NEWLINE, ""); (DEDENT, ""); (ENDMARKER, "")])%list -> lex_shape ts.
+
+Lemma lex_has_shape s ts : lex s = Ok ts -> lex_shape ts.
+Proof.
+  unfold lex. destruct (span is_blank s) as [ws body]. destruct body as [|c r].
+  - intros H. injection H as <-. destruct ws; [now apply shape_empty|now apply shape_blank].
+  - destruct (Ascii.eqb c "#").
+    + destruct (all_chars _ _); [|discriminate]. intros H. injection H as <-. now eapply shape_comment.
+    + destruct (lex_body _ 0 (String c r)) as [l|e] eqn:E; [|discriminate].
+      pose proof (lex_body_kinds _ _ _ _ E) as K. intros H. injection H as <-.
+      destruct (indented ws); [eapply shape_indented; [exact K|reflexivity]|eapply shape_line; [exact K|reflexivity]].
+Qed.
+
+Lemma untok_go_kinds : forall body ind ps rest,
+  Forall (fun t => body_kind (fst t)) body ->
+  untok_go ind false ps (body ++ rest) = spell ps body ++ untok_go ind false (ps_after ps body) rest.
+Proof.
+  induction body as [|[k v] body IH]; intros ind ps rest HF; [reflexivity|].
+  inversion HF as [|? ? K HF']; subst. simpl in K.
+  destruct K as [[->|[->|[->| ->]]]| ->]; cbn [untok_go spell ps_after app fst]; rewrite (IH _ _ _ HF');
+    rewrite ?app_assoc_s; reflexivity.
+Qed.
+
+Lemma strip_kinds l : Forall (fun t => body_kind (fst t)) l -> strip l = l.
+Proof.
+  unfold strip. induction l as [|[k v] l IH]; intros H; [reflexivity|].
+  inversion H as [|? ? K H']; subst. simpl in K. cbn [filter]. rewrite (IH H').
+  destruct K as [[->|[->|[->| ->]]]| ->]; reflexivity.
+Qed.
+
+Lemma map_ren_kinds m l : Forall (fun t => body_kind (fst t)) l -> Forall (fun t => body_kind (fst t)) (map (ren m) l).
+Proof. intros H. apply Forall_map. eapply Forall_impl; [|exact H]. intros t Ht. now rewrite ren_kind. Qed.
+
+Lemma strip_app l rest : Forall (fun t => body_kind (fst t)) l -> strip (l ++ rest) = (l ++ strip rest)%list.
+Proof.
+  unfold strip. induction l as [|[k v] l IH]; intros H; [reflexivity|].
+  inversion H as [|? ? K H']; subst. simpl in K. cbn [filter app]. rewrite (IH H').
+  destruct K as [[->|[->|[->| ->]]]| ->]; reflexivity.
+Qed.
+
+(** For a token list [lex] produced, INDENT/DEDENT do not reach the output of untokenize. *)
+Lemma untok_strip m ts : lex_shape ts -> untok (map (ren m) ts) = untok (map (ren m) (strip ts)).
+Proof.
+  intros [->| ->|c ->|l K ->|ws l K ->]; try reflexivity.
+  - rewrite (strip_app _ _ K). reflexivity.
+  - change (strip ((INDENT, ws) :: l ++ [(NEWLINE, ""); (DEDENT, ""); (ENDMARKER, "")]))
+      with (strip (l ++ [(NEWLINE, ""); (DEDENT, ""); (ENDMARKER, "")])).
+    rewrite (strip_app _ _ K). change (strip [(NEWLINE, ""); (DEDENT, ""); (ENDMARKER, "")]) with [(NEWLINE, ""); (ENDMARKER, "")].
+    unfold untok. cbn [map ren]. rewrite !map_app. cbn [untok_go map ren].
+    rewrite !(untok_go_kinds _ _ _ _ (map_ren_kinds m _ K)). reflexivity.
+Qed.
+
+(** The corollary for the implementation's function: if the line [s] lexes to a well-formed,
+    operator-safe token list (indentation aside) and the new names are identifiers, the text
+    returned by [replace_token_from_lookup] lexes to exactly the renamed token list. *)
+Theorem relex_replace s ts body cmt m :
+  lex s = Ok ts -> strip ts = line body cmt ->
+  wf_body body = true -> wf_comment cmt = true -> ident_range m = true ->
+  exists out, replace_lookup m s = Ok out /\ lex out = Ok (map (ren m) (line body cmt)).
+Proof.
+  intros Hl Hs HB HC Hm. unfold replace_lookup. rewrite Hl. eexists. split; [reflexivity|].
+  rewrite (untok_strip m ts (lex_has_shape _ _ Hl)), Hs. now apply relex_renamed.
 Qed.
